@@ -170,11 +170,68 @@ def run_case(ctx, case_seed):
                       dict(w, captured_diff=sorted(d_cap)[:6], journal_diff=sorted(d_jour)[:6]))
 
 
+def forwarded_object_case(ctx, seed):
+    """An input hands the operation a value (tuple / namedtuple-like pair / list / dict) that holds a custom object; the recorded
+    program forwards that object to an output. The replayed program is an edit that modifies the object IN PLACE before sending it.
+    The edit must show at that entry of the replay's outputs - and the recorded outputs must still say what was sent at record time."""
+    from playback.tape_recorder import TapeRecorder
+    from vlib.values import Obj
+    rng = random.Random(seed)
+    kind = ('memory', 'file', 's3')[seed % 3]
+    shape = ('tuple', 'list', 'dict', 'nested_tuple')[(seed // 3) % 4]
+
+    class ShapeWorld(World):
+        def outcome(self, io, name, ralias, captured):
+            if self.poison or io != 'in':
+                return World.outcome(self, io, name, ralias, captured)
+            o = Obj(name='manifest', rows=[1, 2], seed=seed)
+            return ('value', {'tuple': (o, 'meta'), 'list': [o, 'meta'], 'dict': {'obj': o}, 'nested_tuple': ('x', (o, [3]))}[shape])
+    prog = {'seed_world': 5, 'class_level': False, 'extractor': None, 'params': None, 'opts': {'raise_rate': 0.0}, 'uid': 960000 + seed % 1000,
+            'inputs': [{'name': 'in0', 'io': 'in', 'kind': 'instance', 'nparams': 1, 'resolver': None, 'capture': 'all', 'handler': None,
+                        'fallback': None, 'run_original': False, 'substitute': ('none',), 'nested': [], 'alias': 'shelf.load'}],
+            'outputs': [{'name': 'out0', 'io': 'out', 'kind': 'instance', 'nparams': 1, 'handler': None, 'fail_on_no_result': True, 'default': None,
+                         'nested': [], 'alias': 'shelf.publish'}],
+            'body': [{'op': 'in', 'decl': 'in0', 'args': [{'lit': 1}], 'kwargs': {}, 'var': 'a'},
+                     {'op': 'out', 'decl': 'out0', 'args': [{'var': 'a'}], 'kwargs': {}, 'var': 'b'},
+                     {'op': 'out', 'decl': 'out0', 'args': [{'lit': 'tail'}], 'kwargs': {}, 'var': 'c'}], 'gen_seed': seed}
+    p2 = clone(prog)
+    p2['body'].insert(1, {'op': 'mutate', 'var': 'a'})
+    w = {'forwarded_object': True, 'case_seed': seed, 'cassette': kind, 'shape': shape}
+    with open_box(kind) as box:
+        spy = SpyCassette(box.cassette)
+        rec = TapeRecorder(spy)
+        rec.enable_recording()
+        live = Built(prog, rec, ShapeWorld(5, raise_rate=0.0))
+        live.run('live')
+        saves = [e for e in spy.log if e[0] == 'save']
+        if len(saves) != 1:
+            return
+        ro = spy.recordings[saves[0][1]]
+        if not recording_in_domain(ro.recording_data, ro.recording_metadata):
+            ctx.count('recordings_out_of_serializer_domain')
+            return
+        rec2 = TapeRecorder(box.reader())
+        rep = Built(p2, rec2, World(1, poison=True), cls_name=live.cls.__name__)
+        try:
+            pb = rec2.play(saves[0][2], playback_function_for(rep))
+        except BaseException as ex:  # noqa
+            ctx.violation('replay raised %s' % type(ex).__name__, dict(w, error=repr(ex)[:200]))
+            return
+        ctx.case(w)
+        ctx.count('forwarded_object_cases')
+        exp_live, op_live = expected_outputs(live, live.journal)
+        exp_rep, op_rep = expected_outputs(rep, rep.journal)
+        check_map(ctx, to_map(ctx, pb.recorded_outputs, w, 'recorded_outputs'), exp_live, op_live, w, 'recorded_outputs')
+        check_map(ctx, to_map(ctx, pb.playback_outputs, w, 'playback_outputs'), exp_rep, op_rep, w, 'playback_outputs')
+
+
 def run(ctx):
     n = ctx.budget(300, 15000)
     base = ctx.seed * 1000003 + ctx.shard * 1000000
     for i in range(n):
         run_case(ctx, base + i)
+    for i in range(ctx.budget(24, 600)):
+        forwarded_object_case(ctx, base + i)
     rng = random.Random(base)
     p = gen_program(rng, max_out_decls=3, max_in_decls=2)
     p2, edits = edit_program(p, rng)
@@ -184,4 +241,6 @@ def run(ctx):
 
 
 def replay(ctx, w):
+    if w.get('forwarded_object'):
+        return forwarded_object_case(ctx, w['case_seed'])
     run_case(ctx, w['case_seed'])
